@@ -6,6 +6,7 @@
   stopwatch has counted while not paused.
 -/
 import NextestModel.Model.Unit
+import NextestModel.Gen.Tables
 namespace NextestModel.C09
 open NextestModel.Unit
 
@@ -452,5 +453,35 @@ example :
     (run { period := 100, terminateAfter := some 2, grace := 50, leak := 10 } (U.spawn { period := 100, terminateAfter := some 2, grace := 50, leak := 10 })
       [.time 60, .req .stop, .time 500, .req .cont, .time 40, .time 100, .time 50]).2
     = [.kill .tstp, .ack, .kill .cont, .slow 100 false, .slow 200 true, .kill .term, .kill .kill] := by decide
+
+/-! ## What happens when a slow-timeout period runs out: the source's branch is the model's -/
+
+private theorem interval_branch_eq (c : Cfg) (u : U) (hp : u.phase = .running) (tbl : List (String × List String))
+    (ht : tbl = [("", ["mark_slow"]), ("", ["hit"]), ("grace_nonzero", ["emit_slow"]), ("will_terminate", ["terminate:Timeout", "status:Timeout"]),
+      ("will_terminate&grace_zero", ["break_wait"]), ("not_will_terminate", ["rearm"])]) :
+    interpArm (applyInterval c) (guardInterval c) tbl u = fire c u := by
+  subst ht
+  obtain ⟨ph, sw, is_, gs, ws, ds, ls, lsp, hits, slow, to, lk⟩ := u
+  obtain ⟨per, ta, gr, lkt⟩ := c
+  simp only at hp
+  subst hp
+  simp only [interpArm, List.foldl_cons, List.foldl_nil]
+  simp only [guardInterval, applyInterval]
+  simp (config := { decide := true }) only [if_true, if_false]
+  simp only [fire, willTerminate, beginTerminate, timeoutSignal]
+  cases ta with
+  | none => by_cases hg : gr = 0 <;> simp (config := { decide := true }) [hg]
+  | some k =>
+    by_cases hk : k ≤ hits + 1 <;> by_cases hg : gr = 0 <;> simp (config := { decide := true }) [hk, hg]
+
+/-- **the branch `run_test_inner` takes when a slow-timeout period runs out, statement by statement as read from executor.rs on
+    this run, is the model's clause** — mark slow, count the hit, `will_terminate` = (hits ≥ terminate-after), the slow event
+    (hits × period) unless the grace period is zero, then either `terminate_child(Timeout)` *followed by* the timeout verdict
+    (and, with a zero grace period, straight to waiting for the exit) or the interval re-armed — **and the setup-script loop
+    has the same branch**, so every C09 theorem about the model speaks about setup scripts too -/
+theorem interval_branch_is_the_models (c : Cfg) (u : U) (hp : u.phase = .running) :
+    interpArm (applyInterval c) (guardInterval c) Gen.testIntervalBranch u = fire c u ∧
+    interpArm (applyInterval c) (guardInterval c) Gen.scriptIntervalBranch u = fire c u :=
+  ⟨interval_branch_eq c u hp _ (by decide), interval_branch_eq c u hp _ (by decide)⟩
 
 end NextestModel.C09
